@@ -40,36 +40,34 @@ def props():
 
 
 def ranges(prop):
+    """file -> [(a, b)] on the current tree (anchors resolved through function names)"""
+    sys.path.insert(0, ROOT)
+    from harness import anchors
     out = {}
-    for mech in prop["anchors"].get("mechanism", []):
-        for part in mech.get("where", "").split(","):
-            part = part.strip()
-            m = re.match(r"^(?:([^:]+\.py):)?(\d+)-(\d+)$", part)
-            m0 = re.match(r"^([^:]+\.py)(?::(\d+)(?:-(\d+))?)?", part)
-            if m0 and m0.group(1):
-                cur = m0.group(1)
-                a = int(m0.group(2)) if m0.group(2) else 1
-                b = int(m0.group(3)) if m0.group(3) else (a if m0.group(2) else 10 ** 9)
-                out.setdefault(cur, []).append((a, b))
-                last = cur
-            elif m and out:
-                out.setdefault(last, []).append((int(m.group(2)), int(m.group(3))))
+    for _name, _where, fn, a, b, _q in anchors.property_ranges(prop):
+        out.setdefault(fn, []).append((a, b))
     return out
 
 
 def executed_lines(pid):
-    """statement lines the quick check executes, per file (from tools_cover)"""
+    """anchored statement lines the quick check does NOT execute, per file (from tools_cover)"""
     f = os.path.join(ROOT, "coverage", pid + ".json")
     if not os.path.exists(f):
         return None
     r = json.load(open(f))
     miss = {}
+    full = {}
+    for fn in [x["file"] for x in r["files"]]:
+        full[os.path.basename(fn)] = fn
     for m in r["mechanisms"]:
-        fn = m["where"].split(":")[0]
-        for s in (m.get("missing") or []):
-            a, _, b = s.partition("-")
-            for n in range(int(a), int(b or a) + 1):
-                miss.setdefault(fn, set()).add(n)
+        for item in (m.get("missing") or []):
+            base, _, spec = item.partition(":")
+            fn = full.get(base, base)
+            for s in spec.split(","):
+                a, _, b = s.partition("-")
+                if a.isdigit():
+                    for n in range(int(a), int(b or a) + 1):
+                        miss.setdefault(fn, set()).add(n)
     return miss
 
 
